@@ -100,3 +100,42 @@ Theorem C15_legacy_refuted :
    debug_date_of (dy_of_Z (-1)) = 0 /\ debug_date_of (dy_of_Z 0) = 0)%Z.
 Proof. exact Legacy.C15_legacy_refuted. Qed.
 Print Assumptions C15_legacy_refuted.
+
+(* ---- the builders (ldbuilders), modelled as folds over the flag / segment record (Builders.v; tied to the package by the
+   `micro` mode of this property: random call sequences, rule builders reused, intermediate Build() results kept) ----
+   "for every value built with the builders from valid parts, decode(encode(v)) is deeply equal to v": for EVERY sequence
+   of builder calls whose arguments are valid parts (integers that fit 64 bits, rules and rollouts that are not
+   set-but-empty) *)
+From LD Require Import Builders BuildersSpec.
+
+Theorem C15_builder_call_sequences_round_trip : forall key ops, Forall ok_fbop ops ->
+  decode_flag (encode_flag (fb_build key ops)) = Some (fb_build key ops).
+Proof. exact builder_round_trip. Qed.
+Print Assumptions C15_builder_call_sequences_round_trip.
+
+(* an intermediate Build() leaves the builder as it was *)
+Theorem C15_intermediate_build_is_invisible : forall key l1 l2, fb_build key (l1 ++ FBuild :: l2) = fb_build key (l1 ++ l2).
+Proof. exact intermediate_build_is_invisible. Qed.
+Print Assumptions C15_intermediate_build_is_invisible.
+Theorem C15_intermediate_segment_build_is_invisible : forall key l1 l2, sb_build key (l1 ++ SBuild :: l2) = sb_build key (l1 ++ l2).
+Proof. exact intermediate_segment_build_is_invisible. Qed.
+Print Assumptions C15_intermediate_segment_build_is_invisible.
+
+(* Add* calls append in call order (targets, context targets, prerequisites, rules keep the order they were given in) *)
+Theorem C15_builder_add_calls_append : forall key l,
+  (forall k v, f_prereqs (fb_build key (l ++ [FAddPrereq k v])) = f_prereqs (fb_build key l) ++ [mkprereq k v]) /\
+  (forall v ks, f_targets (fb_build key (l ++ [FAddTarget v ks])) = f_targets (fb_build key l) ++ [mktarget [] ks v None]) /\
+  (forall kd v ks, f_ctargets (fb_build key (l ++ [FAddCtxTarget kd v ks])) = f_ctargets (fb_build key l) ++ [mktarget kd ks v None]) /\
+  (forall ops, f_rules (fb_build key (l ++ [FAddRule ops])) = f_rules (fb_build key l) ++ [rb_build ops]).
+Proof. exact add_calls_append. Qed.
+Print Assumptions C15_builder_add_calls_append.
+
+Theorem C15_unbounded_kind_order_is_irrelevant : forall key l b k,
+  sb_build key (l ++ [SUnbounded b; SUnbKind k]) = sb_build key (l ++ [SUnbKind k; SUnbounded b]).
+Proof. exact unbounded_kind_order. Qed.
+Print Assumptions C15_unbounded_kind_order_is_irrelevant.
+
+(* the hypothesis is satisfiable by a non-trivial call sequence *)
+Theorem C15_builder_hypotheses_nonvacuous : Forall ok_fbop example_calls.
+Proof. exact example_calls_are_valid_parts. Qed.
+Print Assumptions C15_builder_hypotheses_nonvacuous.
